@@ -49,12 +49,11 @@ func sortEval(root map[string]any, at any, args ...any) any {
 			}
 			return ti < sj
 		case int, int8, int16, int32, int64, uint, uint8, uint16, uint32, uint64, float32, float64:
-			fi, _ := asFloat(vi)
-			var fj float64
-			if fj, ok = asFloat(vj); !ok {
+			var c int
+			if c, ok = cmpNum(vi, vj); !ok {
 				panic(fmt.Errorf("sort has mixed key values, number vs %T", vj))
 			}
-			return fi < fj
+			return c == -1
 		case time.Time:
 			var tj time.Time
 			if tj, ok = vj.(time.Time); !ok {
